@@ -14,7 +14,7 @@ reject statistics), so the replay is ADAPTIVE: the Go walker
 cover every transition, and after every input follows the model transition
 that matches what the real code did; a step no transition matches is drift.
 """
-import concurrent.futures, hashlib, json, os, random, re, shutil, time
+import concurrent.futures, hashlib, json, os, random, re, shutil, tempfile, time
 from collections import Counter
 from .. import core, family
 
@@ -74,7 +74,7 @@ CONFIGS = {
         B=dict(NTx=3, MaxOps=5, MaxM=1, MaxWait=3, Outs='{"ok","mempool","invalid"}', ROuts='{"ok","confirmed"}'),
         S=dict(NP=4, Thrs="{50,60,100}", Codes="{1,2,3,4,5}", MaxDelay=1, MaxX=0, MaxDup=0),
         # repeated messages (second getdata / second reject, also of another class) and unrelated rejects
-        S2=dict(NP=3, Thrs="{50,60}", Codes="{1,2,4}", MaxDelay=1, MaxX=1, MaxDup=2),
+        S2=dict(NP=3, Thrs="{60}", Codes="{1,2,4}", MaxDelay=1, MaxX=1, MaxDup=2),
         BF=dict(NTx=3, MaxOps=5, MaxM=2, MaxWait=3, Outs='{"ok","mempool","invalid"}', ROuts='{"ok","confirmed","invalid"}'),
         walks=4000, depth=14, keep=20, tries=60,
         # a second, smaller Broadcaster graph with every outcome class
@@ -157,7 +157,8 @@ def compact(tlc, out_fn):
 
 
 def model(module, consts, wd, invariants):
-    tlc = core.run_tlc([SPEC], module, consts, workers=1, invariants=invariants, workdir=wd, timeout=3000)
+    tlc = core.run_tlc([SPEC], module, consts, workers=1, invariants=invariants, workdir=wd, timeout=3000,
+                       heap="3g")
     if not tlc.ok:
         raise core.MachineryError("TLC on %s failed: %s\n%s" % (module, tlc.error, tlc.stdout_tail[-3000:]))
     gf = os.path.join(wd, "graph.ndjson")
@@ -171,7 +172,7 @@ def model_fine(consts, wd):
     check of the structural invariants and of NoStuck. Nothing is exported or replayed."""
     inv = ["TypeOK", "SemInv", "SortedInv"] + (["NoStuck"] if consts["FixMarkQuit"] else [])
     tlc = core.run_tlc([SPEC], "Broadcaster", dict(consts, Fine=True), workers=8, export=False, invariants=inv,
-                       workdir=wd, timeout=3000)
+                       workdir=wd, timeout=3000, heap="4g")
     if not tlc.ok:
         raise core.MachineryError("TLC on Broadcaster (small steps) failed: %s\n%s" % (tlc.error,
                                                                                        tlc.stdout_tail[-3000:]))
@@ -260,6 +261,8 @@ def run(prop_id, tier, seed, replay=None):
     t0 = time.time()
     cfg = CONFIGS[tier]
     sc = core.scratch("br")
+    # TLC's edge dumps of the thorough graphs are gigabytes: on disk, not in tmpfs (memory)
+    big = tempfile.mkdtemp(prefix="br-tlc-", dir="/tmp") if tier == "thorough" else sc
     try:
         fams = {"b": ("Broadcaster", "BroadcasterProps", "TestVerifBroadcasterReplay"),
                 "s": ("SendTx", "SendTxProps", "TestVerifSendTxReplay")}
@@ -288,11 +291,11 @@ def run(prop_id, tier, seed, replay=None):
             if "S2" in cfg:
                 runs["s2"] = ("SendTx", dict(cfg["S2"], FixRejectFromReplier=CODE_VERSION["FixRejectFromReplier"]),
                               sinv)
-            with concurrent.futures.ThreadPoolExecutor(max_workers=6) as ex:
+            with concurrent.futures.ThreadPoolExecutor(max_workers=3 if tier == "thorough" else 6) as ex:
                 fb = {k: ex.submit(builders[k], sc) for k in ("b", "s")}
-                fm = {k: ex.submit(model, v[0], v[1], os.path.join(sc, "tlc-" + k), v[2]) for k, v in runs.items()}
+                fm = {k: ex.submit(model, v[0], v[1], os.path.join(big, "tlc-" + k), v[2]) for k, v in runs.items()}
                 ff = ex.submit(model_fine, dict(cfg["BF"], FixMarkQuit=CODE_VERSION["FixMarkQuit"]),
-                               os.path.join(sc, "tlc-fine"))
+                               os.path.join(big, "tlc-fine"))
                 bins = {k: f.result() for k, f in fb.items()}
                 models = {k: f.result() for k, f in fm.items()}
                 tlcs["b-small-steps"] = ff.result()
@@ -357,3 +360,4 @@ def run(prop_id, tier, seed, replay=None):
                              label=label)
     finally:
         shutil.rmtree(sc, ignore_errors=True)
+        shutil.rmtree(big, ignore_errors=True)
